@@ -99,6 +99,11 @@ def plan(prop, tier, seed):
     from . import framescan
     u = p.add(GroundUnit(f"ground.{prop}/frame-scan", framescan.frame_scan, (prop,), props=(prop,)))
     p.replayers[u.name] = framescan.replay_frame
+    # the contracts this plan proves, evaluated at run time on the real functions for seeded inputs (guards the engine)
+    from . import sampling
+    names = sorted({u.qualname for u in p.units if isinstance(u, FuncUnit) and not getattr(u, "canary", None)})
+    if names:
+        p.add(BoundedUnit(f"bounded.{prop}/contract-sampling", sampling.sample_contracts, (tier, seed, names), props=(prop,)))
     if prop == "C13":
         from . import history
         p.add(BoundedUnit("bounded.C13/history-probe", history.history_unit, (tier, seed), props=("C13",)))
@@ -182,6 +187,11 @@ def plan_C18(p, tier, seed):
     from . import bounded
     p.add(BoundedUnit("bounded.C18/float-codec", bounded.float_codec, (tier, seed), props=("C18",)))
     p.add(BoundedUnit("bounded.C18/itow-utc", bounded.itow_utc, (tier, seed), props=("C18",)))
+    if tier == "thorough":
+        # the property's own quantifier: all millisecond times of week (604.8 million), split over the cores
+        for k in range(32):
+            p.add(BoundedUnit(f"bounded.C18/itow-exhaustive[{k + 1}/32]", bounded.itow_exhaustive, (tier, seed, k, 32),
+                              props=("C18",)))
     p.add(BoundedUnit("bounded.C18/val2sphp", bounded.val2sphp, (tier, seed), props=("C18",)))
     p.add(BoundedUnit("bounded.C18/att2idx-att2name", bounded.att_names, (tier, seed), props=("C18",)))
     from . import difftest
